@@ -387,10 +387,15 @@ func (g *Gen) strct(depth int) *Node {
 				f.Tags["zog"] = "z_" + k
 				if exported {
 					f.Tags["zog"] = "Z_" + k
+				} else if r.P(12) {
+					f.Tags["zog"] = "z_" + k + Pick(r, []string{",x", ",omitempty", " y", "-", ";"}) // a tag is a key as it stands
 				}
 			}
 			if r.P(40) {
 				f.Tags["json"] = "j_" + k
+				if r.P(12) {
+					f.Tags["json"] = "j_" + k + ",omitempty"
+				}
 			}
 			if g.P.FETags {
 				if r.P(35) {
